@@ -15,8 +15,11 @@ PROP = Prop(
     "C04", level="exploration", rule=RULE,
     layers=[Layer("histories", strategy=lambda: scenarios(max_callers=5, limits=(1, 1, 2, 2, 3)), execute=make_execute("C04"),
                   budget={"quick": 3000, "thorough": 60000}),
-            Layer("h2-goaway", strategy=goaway_scenarios, execute=make_execute("C04"), budget={"quick": 1200, "thorough": 30000})],
+            Layer("h2-goaway", strategy=goaway_scenarios, execute=make_execute("C04"), budget={"quick": 1200, "thorough": 30000}),
+            __import__("vf.props.real", fromlist=["concurrent_layer"]).concurrent_layer("C04", {"quick": 320, "thorough": 12000})],
     assumptions=["pool.connections is sampled at every op boundary of the simulated network and at every quiescence",
-                 "a stream still being established counts against the limit (it is reachable from no evicted connection)"],
+                 "a stream still being established counts against the limit (it is reachable from no evicted connection)",
+                 "layer real-concurrent: the SERVER side of real loopback sockets counts, at every accept, the earlier connections whose client end is still "
+                 "open (POLLRDHUP); an apparent overshoot is re-checked for 0.3 s so that a connection the pool has dropped and is closing is not counted"],
     explanation="Schedule space sampled; the bound is checked at every op boundary of every run (coverage.metrics.monitor_checks).",
 )
